@@ -69,3 +69,66 @@ Theorem C02_loc_list_rows_complete : forall divs parts labels x,
   In x labels -> In x (concat parts) -> In x (concat (ll_parts divs parts labels)).
 Proof. exact ll_rows_complete. Qed.
 Print Assumptions C02_loc_list_rows_complete.
+
+(* alignment of differently partitioned operands with known divisions (calc_divisions_for_align + Repartition(force=True) +
+   partition-wise operation): the common divisions are valid, contain every operand's boundaries and cover every operand;
+   repartitioning an operand to them neither loses nor duplicates a row; rows with equal index values of the two operands
+   meet in the same partition; and for every operation that is local in the index value (index-aligned arithmetic, index
+   joins, combine_first, ...) the partition-wise result is exactly the global result cut at the common divisions --
+   for all divisions and all partitions.  Tie: T-LAYER align_layer (real calc_divisions_for_align / collection divisions /
+   computed partitions vs the extracted align_divisions, align_single). *)
+From DX Require Import Align AlignProofs.
+Theorem C02_align_divisions_valid : forall ds,
+  ds <> [] -> Forall (fun d => (2 <= length d)%nat) ds -> Forall Repart.sortedZ ds ->
+  valid_divs (align_divisions ds) = true.
+Proof. exact align_valid. Qed.
+Print Assumptions C02_align_divisions_valid.
+
+Theorem C02_align_no_row_lost_or_duplicated : forall (row : Type) (idx : row -> Z) ds a (P : list (list row)),
+  ds <> [] -> Forall (fun d => (2 <= length d)%nat) ds -> Forall Repart.sortedZ ds ->
+  In a ds -> respects idx a P ->
+  (forall r, In r (concat P) ->
+     exists j, (j < length (align_divisions ds) - 1)%nat /\
+               in_target (align_divisions ds) j (idx r) = true /\
+               forall j', (j' < length (align_divisions ds) - 1)%nat ->
+                          in_target (align_divisions ds) j' (idx r) = true -> j' = j)
+  /\ Permutation (concat (spec_plan idx (align_divisions ds) P)) (concat P).
+Proof. exact align_partition_exact. Qed.
+Print Assumptions C02_align_no_row_lost_or_duplicated.
+
+Theorem C02_align_copartitioned : forall (row : Type) (idx : row -> Z) b (P : list (list row)) v j, (j < length b - 1)%nat ->
+  sel idx v (nth j (spec_plan idx b P) []) = if in_target b j v then sel idx v (concat P) else [].
+Proof. exact align_copartitioned. Qed.
+Print Assumptions C02_align_copartitioned.
+
+Theorem C02_aligned_blockwise_is_global : forall (row : Type) (idx : row -> Z) (out : Type)
+    (f : list row -> list row -> list out) (key : out -> Z),
+  (forall (p : Z -> bool) A B,
+      filter (fun o => p (key o)) (f A B) = f (filter (fun r => p (idx r)) A) (filter (fun r => p (idx r)) B)) ->
+  forall ds a1 a2 (P1 P2 : list (list row)),
+  ds <> [] -> Forall (fun d => (2 <= length d)%nat) ds -> Forall Repart.sortedZ ds ->
+  In a1 ds -> In a2 ds -> respects idx a1 P1 -> respects idx a2 P2 ->
+  (forall o, In o (f (concat P1) (concat P2)) ->
+             (nthZ (align_divisions ds) 0 <= key o <= lastZ (align_divisions ds))%Z) ->
+  (forall j, (j < length (align_divisions ds) - 1)%nat ->
+     nth j (blockwise2 f (spec_plan idx (align_divisions ds) P1) (spec_plan idx (align_divisions ds) P2)) []
+     = filter (fun o => in_target (align_divisions ds) j (key o)) (f (concat P1) (concat P2)))
+  /\ Permutation (concat (blockwise2 f (spec_plan idx (align_divisions ds) P1) (spec_plan idx (align_divisions ds) P2)))
+                 (f (concat P1) (concat P2)).
+Proof.
+  intros row idx out f key Hloc ds a1 a2 P1 P2 Hne Hl Hs H1 H2 R1 R2 Hk. split.
+  - exact (aligned_blockwise_local row idx out f key Hloc ds a1 a2 P1 P2 Hne Hl Hs H1 H2 R1 R2).
+  - exact (aligned_blockwise_perm row idx out f key Hloc ds a1 a2 P1 P2 Hne Hl Hs H1 H2 R1 R2 Hk).
+Qed.
+Print Assumptions C02_aligned_blockwise_is_global.
+
+(* "use the left operand's divisions" loses rows of the other operand *)
+Theorem C02_align_first_only_refuted :
+  exists (ds : list (list Z)) (a : list Z) (P : list (list Z)) (r : Z),
+    ds <> [] /\ Forall (fun d => (2 <= length d)%nat) ds /\ Forall Repart.sortedZ ds /\
+    In a ds /\ respects idZ a P /\
+    In r (concat P) /\
+    ~ In r (concat (spec_plan idZ (align_divisions_first_only ds) P)) /\
+    In r (concat (spec_plan idZ (align_divisions ds) P)).
+Proof. exact align_first_only_refuted. Qed.
+Print Assumptions C02_align_first_only_refuted.
